@@ -3,6 +3,7 @@ package lib
 import (
 	"fmt"
 	"reflect"
+	"sort"
 	"time"
 	"unicode/utf8"
 
@@ -611,6 +612,77 @@ func EditInPlace(f *fit.File, seed uint64) (edited int) {
 		}
 	}
 	return edited
+}
+
+// CrossPair names a message type that one file type holds as a slice and another as a single
+// message.
+type CrossPair struct {
+	Global                uint16
+	SliceFT, SingleFT     byte
+	SliceSlot, SingleSlot int
+}
+
+// CrossPairs lists every (message, file type with a slice of it, file type with a single one).
+func CrossPairs() (out []CrossPair) {
+	prof := Profile()
+	var fts []int
+	for ft := range prof.Files {
+		fts = append(fts, int(ft))
+	}
+	sort.Ints(fts)
+	for _, a := range fts {
+		for i, sa := range prof.Files[byte(a)] {
+			if sa.Single {
+				continue
+			}
+			for _, b := range fts {
+				for j, sb := range prof.Files[byte(b)] {
+					if sb.Single && sb.Global == sa.Global {
+						out = append(out, CrossPair{sa.Global, byte(a), byte(b), i, j})
+					}
+				}
+			}
+		}
+	}
+	return out
+}
+
+// CrossFile builds one member of a cross pair: with asSlice, a File of the slice-holding type
+// whose slice has n copies of one message (drawn from seed); otherwise a File of the other type
+// whose single slot holds that same message. Both have the same file_id apart from the type
+// and nothing else set.
+func CrossFile(cp CrossPair, seed uint64, asSlice bool, n int) *fit.File {
+	ft := cp.SingleFT
+	if asSlice {
+		ft = cp.SliceFT
+	}
+	f, err := fit.NewFile(fit.FileType(ft), fit.NewHeader(fit.V20, true))
+	if err != nil {
+		return nil
+	}
+	f.FileId = *fit.NewFileIdMsg()
+	f.FileId.Type = fit.FileType(ft)
+	cont := Container(f, ft)
+	if cont == nil {
+		return nil
+	}
+	cv := reflect.ValueOf(cont).Elem()
+	mk := func() reflect.Value {
+		m := fit.VerifNewMesg(cp.Global)
+		FillMesg(NewRand("CrossFile", seed), cp.Global, m, &FileGenOpts{Subset: 3 + int(seed%2)}) // half of the fields, or all
+		return m
+	}
+	if asSlice {
+		fv := cv.Field(cp.SliceSlot)
+		sl := reflect.MakeSlice(fv.Type(), 0, n)
+		for k := 0; k < n; k++ {
+			sl = reflect.Append(sl, mk())
+		}
+		fv.Set(sl)
+	} else {
+		cv.Field(cp.SingleSlot).Set(mk())
+	}
+	return f
 }
 
 // VaryLengths gives every string field and every numeric array field of every message of f's
